@@ -14,6 +14,7 @@ import (
 	"path/filepath"
 	"sort"
 	"strings"
+	"sync"
 
 	"github.com/martian-lang/martian/martian/core"
 )
@@ -67,6 +68,8 @@ func class(cs []string) string {
 			set["NL"] = true
 		case "\t":
 			set["TAB"] = true
+		case "\r":
+			set["CR"] = true
 		case " ":
 			set["SP"] = true
 		default:
@@ -232,7 +235,8 @@ func scripts(rows []Row, dir string, rep *Report) {
 	}
 	// values a shell would expand if they were ever left unquoted
 	for _, v := range []string{"/opt/tools/lib:~/lib", "a:~", "~", "~root", "x=~/y", "a b", "*", "?", "[a]", "{a,b}", "$HOME", "a;b", "a&b",
-		"a|b", "a>b", "a<b", "(a)", "#a", "a\\b", "-n", "--", "a\tb", "a\nb", "%s", "!!"} {
+		"a|b", "a>b", "a<b", "(a)", "#a", "a\\b", "-n", "--", "a\tb", "a\nb", "%s", "!!",
+		"line1\r\nline2", "\r\n", "a\r", "\rb", "end\r\n", "\n\r", "a\r\r\nb"} {
 		items = append(items, item{v, []string{"expansion " + v}})
 	}
 	for _, ph := range placeholders {
@@ -308,6 +312,47 @@ func scripts(rows []Row, dir string, rep *Report) {
 		}
 		os.RemoveAll(filepath.Join(dir, "scr"))
 	}
+}
+
+// Concurrent: mrp renders the scripts of jobs dispatched in one pass from parallel
+// goroutines on ONE job manager.  Every script rendered concurrently must be the one a
+// fresh job manager renders for the same job on its own.
+func Concurrent(args []string) int {
+	render := core.VerifJobScripter(tmpl)
+	const G, N = 8, 1500
+	type bad struct {
+		Job, Got, Want string
+	}
+	var mu sync.Mutex
+	var bads []bad
+	var wg sync.WaitGroup
+	n := 0
+	for g := 0; g < G; g++ {
+		wg.Add(1)
+		go func(g int) {
+			defer wg.Done()
+			for i := 0; i < N; i++ {
+				id := fmt.Sprintf("g%d_%d", g, i)
+				argv := []string{"probe", id + " $x `y` \"q\"", strings.Repeat(id, 1+i%5)}
+				envs := map[string]string{"VERIF_PROBE_ENV": id, "ZZ": "__MRO_CMD__" + id}
+				md := "/nonexistent/ps/S/fork" + id
+				got := render("/bin/prog_"+id, argv, envs, md, "ID.x.P.S.fork"+id, "main", float64(1+i%3), float64(1+g%2))
+				want := core.VerifJobScript(tmpl, "/bin/prog_"+id, argv, envs, md, "ID.x.P.S.fork"+id, "main", float64(1+i%3), float64(1+g%2))
+				if got != want {
+					mu.Lock()
+					if len(bads) < 5 {
+						bads = append(bads, bad{id, got, want})
+					}
+					n++
+					mu.Unlock()
+				}
+			}
+		}(g)
+	}
+	wg.Wait()
+	b, _ := json.Marshal(map[string]interface{}{"renderings": G * N, "goroutines": G, "differ": n, "examples": bads})
+	fmt.Println(string(b))
+	return 0
 }
 
 func unhex(ps ...*string) bool {
